@@ -26,7 +26,7 @@ def run_one(mu, tier='quick'):
                            capture_output=True, text=True)
         if r.returncode != 0:
             return 'BROKEN-MUTANT(does not import)'
-        env = dict(os.environ, VERIF_REPO=scr)
+        env = dict(os.environ, VERIF_REPO=scr, VERIF_OUT=os.path.join(scr, 'out'))
         r = subprocess.run([os.path.join(VERIF, 'check'), mu['prop'], '--tier', tier], env=env, capture_output=True,
                            text=True, cwd=VERIF)
         first = [l for l in r.stdout.splitlines() if l.startswith('  clause=')][:1]
@@ -36,13 +36,18 @@ def run_one(mu, tier='quick'):
 
 
 def main():
-    sel = sys.argv[1:]
-    for mu in M:
-        if sel and not any(mu['id'].startswith(s) or mu['prop'] == s for s in sel):
-            continue
-        res = run_one(mu)
-        flag = 'CAUGHT' if res.startswith('exit=1') else ('MISSED' if res.startswith('exit=0') else 'ERROR ')
-        print('%-6s %-40s %s   [%s]' % (flag, mu['id'], res, mu['note']), flush=True)
+    args = sys.argv[1:]
+    jobs = 1
+    if args and args[0].startswith('-j'):
+        jobs = int(args[0][2:] or 4)
+        args = args[1:]
+    sel = args
+    todo = [mu for mu in M if not sel or any(mu['id'].startswith(s) or mu['prop'] == s for s in sel)]
+    from concurrent.futures import ThreadPoolExecutor
+    with ThreadPoolExecutor(jobs) as ex:
+        for mu, res in zip(todo, ex.map(run_one, todo)):
+            flag = 'CAUGHT' if res.startswith('exit=1') else ('MISSED' if res.startswith('exit=0') else 'ERROR ')
+            print('%-6s %-8s %-40s %s   [%s]' % (flag, mu['prop'], mu['id'], res, mu['note']), flush=True)
 
 
 if __name__ == '__main__':
